@@ -384,6 +384,14 @@ impl<S: RecvStream, B> FrameStream<S, B> {
 //@end
 }
 impl<S, B> FrameStream<S, B> {
+//@extract h3/src/frame.rs :: impl FrameStream<S, B> :: fn new
+//@external_body_if ASSUME_UNIT_frames
+//@ghost-init Self|FrameStream taken: Ghost(Seq::empty())
+//@tag C02 C03
+//@ret r
+//@sig
+        ensures r.stream == stream, r.remaining_data == 0, r.decoder.expected is None, r.taken@.len() == 0, // [C02.framestream.new]
+//@end
 //@extract h3/src/frame.rs :: impl FrameStream<S, B> :: fn into_inner
 //@external_body_if ASSUME_UNIT_frames
 //@tag C19
@@ -411,5 +419,21 @@ where
 //@ret r
 //@sig
         ensures r.1.buf == self.buf, r.1.eos == self.eos, // [C19.split.buffer] bytes that followed the stream header are not lost
+//@end
+}
+impl<S, B> FrameStream<S, B>
+where
+    S: BidiStream<B>,
+{
+//@extract h3/src/frame.rs :: impl FrameStream<S, B> :: fn split
+//@external_body_if ASSUME_UNIT_frames
+//@ghost-init Self|FrameStream taken: Ghost(Seq::empty())
+//@tag C02 C03 C19 C01
+//@ret r
+//@sig
+        // the receive half reads on exactly where the unsplit stream stood: same buffered bytes, same end-of-stream flag,
+        // same decoder memo, and — inside a DATA frame — the same number of payload bytes still owed
+        ensures r.1.stream.buf == self.stream.buf, r.1.stream.eos == self.stream.eos, r.1.decoder == self.decoder,
+            r.1.remaining_data == self.remaining_data, // [C02.split.reader] [C03.split.remaining]
 //@end
 }
